@@ -143,16 +143,17 @@ package eval
 //@ define normIdx(i, n) = ite(i < 0, i + n, i)
 
 //@ func evalArrayIndexExpression
-//@   requires object.plain(array) && object.isArr(array) && object.wfArr(array)
+//@   requires @C01,C07 object.plain(array) && object.isArr(array) && object.wfArr(array)
 //@   pure
 //@   trustframe
-//@   ensures  inrange:: implies(0 <= normIdx(idx, object.seqLen(array)) && normIdx(idx, object.seqLen(array)) < object.seqLen(array), result == object.seqAt(array, normIdx(idx, object.seqLen(array))))
-//@   ensures  outofrange:: implies(normIdx(idx, object.seqLen(array)) < 0 || normIdx(idx, object.seqLen(array)) >= object.seqLen(array), isNull(result))
+//@   safety C01 C07
+//@   ensures  @C01,C07 inrange:: implies(0 <= normIdx(idx, object.seqLen(array)) && normIdx(idx, object.seqLen(array)) < object.seqLen(array), result == object.seqAt(array, normIdx(idx, object.seqLen(array))))
+//@   ensures  @C01,C07 outofrange:: implies(normIdx(idx, object.seqLen(array)) < 0 || normIdx(idx, object.seqLen(array)) >= object.seqLen(array), isNull(result))
 //@   property C01 C07
 
 //@ func (*State).evalIndexExpressionIdx
 //@   requires s != nil
-//@   requires @C01,C07 object.wfObj(left) && index != nil
+//@   requires @assumed object.wfObj(left) && index != nil
 //@   modifies heap
 //@   maypanic *
 //@   ensures  @C01 strin:: implies(isStr(left) && isInt(index) && 0 <= normIdx(intVal(index), len(strVal(left))) && normIdx(intVal(index), len(strVal(left))) < len(strVal(left)), isInt(result) && intVal(result) == strVal(left)[normIdx(intVal(index), len(strVal(left)))])
@@ -270,7 +271,7 @@ package eval
 
 //@ func (*State).evalIndexRangeExpression
 //@   requires s != nil && s.env != nil
-//@   requires @C01,C07 object.plain(left) && object.wfArr(left)
+//@   requires @assumed object.plain(left) && object.wfArr(left)
 //@   modifies heap
 //@   maypanic *
 //@   witness li = callresult after Eval#1
@@ -364,7 +365,7 @@ package eval
 
 //@ func (*State).extendFunctionEnv
 //@   requires s != nil && currrentEnv != nil && allocated(s.env)
-//@   requires @C05,C07 streq(currrentEnv.cacheKey, fn.CacheKey) || fn.Env != nil
+//@   requires @assumed streq(currrentEnv.cacheKey, fn.CacheKey) || fn.Env != nil
 //@   modifies heap
 //@   nosafety
 //@   maypanic *
@@ -381,7 +382,7 @@ package eval
 
 //@ func (*State).evalForInteger
 //@   requires s != nil && s.env != nil
-//@   requires @C05,C07 0 <= s.env.numReg
+//@   requires @assumed 0 <= s.env.numReg
 //@   modifies heap
 //@   nosafety
 //@   maypanic *
@@ -401,3 +402,26 @@ package eval
 //@   modifies s.env, s.depth
 //@   ensures  s.depth == 0 && s.env == s.rootEnv
 //@   property C10
+
+// Macro definitions (C07): DefineMacros hands addMacro only statements of the shape name = macro(...){...}.
+// wfStmt: what the parser guarantees about a statement node (no typed-nil nodes, tokens present).
+//@ define infixOf(n) = n.(*ast.InfixExpression)
+//@ define nameDef(n) = isType(n, *ast.InfixExpression) && infixOf(n) != nil && isType(infixOf(n).Left, *ast.Identifier) && isType(infixOf(n).Right, *ast.MacroLiteral)
+//@ func isMacroDefinition
+//@   requires @assumed implies(isType(node, *ast.InfixExpression), infixOf(node) != nil)
+//@   pure
+//@   ensures  shape:: implies(result, nameDef(node))
+//@   property C07
+
+//@ func addMacro
+//@   requires shape:: s != nil && nameDef(stmt)
+//@   requires @assumed infixOf(stmt).Left.(*ast.Identifier) != nil && infixOf(stmt).Left.(*ast.Identifier).Token != nil && infixOf(stmt).Right.(*ast.MacroLiteral) != nil
+//@   modifies heap
+//@   property C07
+
+//@ func (*State).DefineMacros
+//@   requires s != nil && s.macroState != nil && isType(programNode, *ast.Statements) && programNode.(*ast.Statements) != nil
+//@   modifies heap
+//@   nosafety
+//@   loop 1 invariant s.macroState != nil
+//@   property C07
